@@ -1,6 +1,50 @@
-"""State ensembles produced by measurement processes: states and probabilities share one layout."""
+"""State ensembles produced by measurement processes: states and probabilities share one layout.
+
+TLC (MC_C06, chains state -> measurement process (-> measurement process) with 2/3/4 outcomes) gives
+for every outcome multi-index the exact unnormalised post-measurement state; the ensemble returned by
+the library must hold, at the SAME multi-index (accessor state(outcome) and prob_dist[outcome]), a
+probability and a normalised state whose product is that exact value; shape = outcome counts in time
+order."""
+import itertools
+
+import numpy as np
+
+from harness import coords
+from harness.props import c06
 
 
 def run(chk):
-    # filled in together with the composition catalogue (C06)
-    return
+    from quara.objects.operators import compose_qoperations
+    r = chk.tlc("mc/MC_C06", "mc/MC_C06_ens_emit.cfg", workers=8, label="MC_C06 ensembles emit")
+    n = 0
+    for case in r.emitted:
+        if case["kind"] != "chain" or case["val"]["kind"] != "S":
+            continue
+        chain = case["chain"]
+        if chain[0]["k"] != "S" or not any(it["k"] == "M" for it in chain):
+            continue
+        names = "-".join(it["n"] for it in chain)
+        objs = [c06.build(it["k"], el) for it, el in zip(chain, case["elems"])]
+        res = objs[0]
+        for o in objs[1:]:
+            res = compose_qoperations(o, res)
+        shape = tuple(case["val"]["shape"])
+        want = [coords.rvec(x) for x in case["val"]["items"]]
+        n += 1
+        chk.count(len(want), ("ens", names))
+        if tuple(res.prob_dist.shape) != shape:
+            chk.violation("ensemble:shape:%s" % names, "ensemble shape %s, outcome counts in time order %s" % (res.prob_dist.shape, shape), dict(chain=chain))
+            continue
+        for mi in itertools.product(*[range(s) for s in shape]):
+            ser = int(np.ravel_multi_index(mi, shape))
+            key = tuple(mi) if len(mi) > 1 else int(mi[0])
+            st = res.state(key)
+            p = res.prob_dist[key]
+            if not coords.close(p * coords.h_of_vec((2,), st.vec), want[ser], 1e-9) or st is not res.states[ser]:
+                chk.violation("ensemble:layout:%s" % names, "state/probability at outcome %s do not belong together" % (mi,), dict(chain=chain))
+                break
+        ps = np.asarray(res.prob_dist.ps)
+        if abs(ps.sum() - 1) > 1e-9:
+            chk.violation("ensemble:norm:%s" % names, "probabilities sum to %r" % ps.sum(), dict(chain=chain))
+        chk.replayed += 1
+    chk.notes["ensembles"] = n
